@@ -3,7 +3,7 @@ SPEC = dict(
     title='A never-stop fan is never driven below its minimum, and the minimum never drops',
     props_file='Props/C02.v', props_mod='Props.C02',
     proof_files=['Proofs/Rescale.v', 'Proofs/Ctrl.v', 'Drv/CtrlC02.v'],
-    tie_vo=['Proofs/LeafTie.vo'],
+    tie_vo=['Proofs/LeafTie.vo', 'Proofs/ConstsTie_basic.vo', 'Proofs/ConstsTie_clamp.vo', 'Proofs/ConstsTie_stall.vo'],
     drivers=[dict(name='ctrl', drv_mod='Drv.CtrlC02', drv_file='Drv/CtrlC02.v', shard=100,
                   args={'quick': ['n=600'], 'thorough': ['n=12000']}, timeout={'quick': 900, 'thorough': 6000})],
     rule='seeded histories of 1..40 control cycles with interleaved RPM polls, external interference and device faults on real '
